@@ -1,4 +1,4 @@
 SPECIFICATION Spec
-CONSTANTS Decimals = 6  NoClose = FALSE  AlwaysTxt = TRUE
+CONSTANTS Decimals = 6  NoClose = FALSE  AlwaysTxt = TRUE  RawHeader = FALSE
 CHECK_DEADLOCK FALSE
 INVARIANT PathRule
